@@ -990,10 +990,32 @@ def rule_copies(eng):
     for f in eng.fns:
         if is_copy_helper(eng, f):
             continue
+        # copies inside local lambdas are judged where the lambda is called, with its parameters substituted
+        lambdas = {}
+        for d, es in local_defs(f).items():
+            if len(es) == 1:
+                lm = strip_all_casts(es[0])
+                while lm.get("k") == "construct" and len(lm.get("args", [])) == 1:
+                    lm = strip_all_casts(lm["args"][0])
+                if lm.get("k") == "lambda":
+                    lambdas[d] = lm
+        in_lambda = {y.get("id") for lm in lambdas.values() for y in walk(lm.get("body", {}))}
+        work = []
         for c in f.nodes():
+            if c.get("id") in in_lambda:
+                continue
+            if c.get("k") == "call" and (c.get("callee") or {}).get("nm") == "operator()" and "obj" in c and strip_all_casts(c["obj"]).get("decl") in lambdas:
+                lm = lambdas[strip_all_casts(c["obj"])["decl"]]
+                mapping = {prm["decl"]: a for prm, a in zip(lm.get("params", []), c.get("args", []))}
+                for y in walk(lm.get("body", {})):
+                    if y.get("k") == "call" and facts.copy_args(y) is not None:
+                        work.append((c, tuple(None if part is None else facts.substitute(part, mapping) for part in facts.copy_args(y))))
+                continue
+            work.append((c, None))
+        for c, pre in work:
             if c.get("k") not in ("call", "construct"):
                 continue
-            ca = facts.copy_args(c) if c.get("k") == "call" else None
+            ca = pre if pre is not None else (facts.copy_args(c) if c.get("k") == "call" else None)
             if ca is None and c.get("k") == "call":
                 ca = facts.copy_helper_args(fb, c)  # a one-line copy helper is judged where it is called
             managed = False
